@@ -23,10 +23,17 @@ func (c *Ctx) rulePrunePred() {
 		}
 		allInstrs(w.Callback, func(b *ssa.BasicBlock, ins ssa.Instruction) {
 			r, ok := ins.(*ssa.Return)
-			if !ok || len(r.Results) != 1 || !isConstFalse(r.Results[0]) {
+			if !ok || len(r.Results) != 1 {
 				return
 			}
-			for _, l := range P.BlockGuards(b) {
+			if cv, isC := constBool(r.Results[0]); isC && cv {
+				return
+			}
+			gl := P.BlockGuards(b)
+			if _, isC := constBool(r.Results[0]); !isC {
+				gl = append(append([]Lit{}, gl...), literals(P.condFormula(r.Results[0], 0), false)...)
+			}
+			for _, l := range gl {
 				if call := litCall(l); call != nil && l.Pos {
 					if h := call.Call.StaticCallee(); h != nil && P.IsProductFunc(h) && len(h.Blocks) > 0 {
 						preds = append(preds, h)
